@@ -1,5 +1,6 @@
 import Driver.C13
 import Driver.C14
+import Driver.C19
 /-
   Line-protocol driver: one case per input line (`<op> <args…>`), one output line per
   case: `<model outcome>\t<oracle expectation or ->`.  Built from the very definitions the
@@ -14,6 +15,7 @@ def handle (line : String) : String :=
   | op :: _ =>
     if op == "tpkt_read" || op == "x224_read" then c13 toks
     else if op == "tpkt_write" || op == "x224_write" then c14 toks
+    else if op == "blit" then c19 toks
     else "bad-op"
 
 partial def loop (h : IO.FS.Stream) (out : IO.FS.Stream) : IO Unit := do
